@@ -1555,6 +1555,34 @@ theorem mutate_frame {h : Heap} {s : Nat} {mu : Mut} {h' : Heap} (hm : mutate h 
               refine ⟨Or.inl hx', ?_⟩
               have := ha x hx'
               cases x <;> exact this }
+    | removeDest d =>
+      simp only [getTMeta] at hm
+      cases htm : h.tmetas.get inf.tmeta with
+      | none => simp [htm] at hm
+      | some tm =>
+        simp only [htm] at hm
+        cases hds : h.dsets.get tm.dests with
+        | none => simp [hds] at hm
+        | some xs =>
+          simp [hds] at hm
+          subst hm
+          exact {
+            mono := fun x hx => by cases x <;> exact hx
+            agree := fun x _ hnr => by
+              cases x with
+              | dset r' =>
+                have : r' ≠ tm.dests := by
+                  intro e; subst e
+                  exact hnr (mem_reach.2 (Or.inr ⟨inf, hi, Or.inr (Or.inr (Or.inl ⟨tm, htm, rfl⟩))⟩))
+                simp [AgreeOn, this]
+              | _ => rfl
+            grow := fun x hx => by
+              have hx' : x ∈ reach h s := by
+                rw [mem_reach] at hx ⊢
+                exact hx
+              refine ⟨Or.inl hx', ?_⟩
+              have := ha x hx'
+              cases x <;> exact this }
     | setUnit l u =>
       simp only [getDict, getCol] at hm
       cases hes : h.dicts.get inf.cols with
